@@ -248,3 +248,79 @@ pub fn subsets(units: &[(usize, usize)], max_exh: usize) -> Vec<Vec<(usize, usiz
     out.dedup();
     out
 }
+
+impl GenTable {
+    pub fn lookup_hash(&self, key: &[u8], ts: u64, exp: u64, vlen: u64, hash: u64) -> usize {
+        if let Some(ids) = self.by_key_ts.get(&(key.to_vec(), ts)) {
+            for id in ids {
+                let g = &self.gens[*id - 1];
+                if g.exp == exp && g.value.len() as u64 == vlen && L::hash64(&g.value) == hash {
+                    return *id;
+                }
+            }
+        }
+        0
+    }
+}
+
+/// Abstract contents of a whole device image (for traces that start from a crashed device).
+pub fn classify_image(img: &[u8], version: u32, gens: &GenTable) -> Value {
+    let total = (img.len() / L::BLOCK) as u64;
+    let blks = L::classify(img, version);
+    let mut out: Vec<Value> = Vec::with_capacity(blks.len());
+    let mut head_gen: HashMap<u64, usize> = HashMap::new();
+    for (idx, b) in blks.iter().enumerate() {
+        let s = L::DATA_START + idx as u64;
+        let raw = &img[s as usize * L::BLOCK..(s as usize + 1) * L::BLOCK];
+        match b {
+            L::Blk::Zero => out.push(content("Z", 0, 0, 0, "")),
+            L::Blk::Head { key, ts, exp, vlen, n, token_ok, value_hash } => {
+                if *token_ok {
+                    let g = gens.lookup_hash(key, *ts, *exp, *vlen, *value_hash);
+                    head_gen.insert(s, g);
+                    out.push(content("H", g, *n, 0, ""));
+                } else {
+                    out.push(content("Xh", 0, 0, 0, ""));
+                }
+            }
+            L::Blk::Tail { of, i } => {
+                let g = *head_gen.get(of).unwrap_or(&0);
+                let (lk, _) = look_of(raw, s, version);
+                out.push(content("T", g, 0, *i, lk));
+            }
+            L::Blk::Marker { rem, state, token_ok } => {
+                if *token_ok && *rem >= 1 {
+                    out.push(content("M", 0, *rem, *state as u64, ""));
+                } else {
+                    out.push(content("Xm", 0, 0, 0, ""));
+                }
+            }
+            L::Blk::LegacyMarker => out.push(content("LM", 0, 0, 0, "")),
+            L::Blk::Other => {
+                let (lk, _) = look_of(raw, s, version);
+                match lk {
+                    "Xh" => out.push(content("Xh", 0, 0, 0, "")),
+                    "Xm" => out.push(content("Xm", 0, 0, 0, "")),
+                    _ => out.push(content("X", 0, 0, 0, "")),
+                }
+            }
+        }
+    }
+    let j0 = journal_value(&img[L::BLOCK..4 * L::BLOCK], total);
+    let j1 = journal_value(&img[4 * L::BLOCK..7 * L::BLOCK], total);
+    let m0 = meta_value(&img[0..L::BLOCK]);
+    let m1 = meta_value(&img[7 * L::BLOCK..8 * L::BLOCK]);
+    json!({"blk": out, "j": [j0, j1], "m": [m0, m1]})
+}
+
+pub fn hex(d: &[u8]) -> String {
+    let mut s = String::with_capacity(d.len() * 2);
+    for b in d {
+        s.push_str(&format!("{b:02x}"));
+    }
+    s
+}
+
+pub fn unhex(s: &str) -> Vec<u8> {
+    (0..s.len() / 2).map(|i| u8::from_str_radix(&s[2 * i..2 * i + 2], 16).unwrap_or(0)).collect()
+}
